@@ -1624,3 +1624,6 @@ for _i in (1, 2, 3, 4, 5, 6, 7, 8, 10, 11, 12, 13, 14, 15, 16, 17, 18, 19, 20):
 for _i in (1, 2, 3, 4, 5, 6, 7, 8, 10, 11, 12, 13, 14, 15, 16, 17, 18, 19, 20):
     VARIANTS.append(dict(id="literal-spellings-c%02d" % _i, prop="C%02d" % _i, expect="undecided", rule=None, edits=[("@literal_spellings",)],
                          what="[] -> list(), {} -> dict(), set([a, b]) -> {a, b}, sorted(x) -> sorted(list(x)), raise messages re-worded: accepted or undecided, never an alarm"))
+for _i in (1, 2, 3, 4, 5, 6, 7, 8, 10, 11, 12, 13, 14, 15, 16, 17, 18, 19, 20):
+    VARIANTS.append(dict(id="arith-spellings-c%02d" % _i, prop="C%02d" % _i, expect="undecided", rule=None, edits=[("@arith_spellings",)],
+                         what="constant operands of + and * on the other side, x / 2 -> x * 0.5, x ** 2 -> x * x, x[0:n] -> x[:n]: accepted or undecided, never an alarm"))
